@@ -24,6 +24,7 @@ RULE = (
     ' Round 5: chains of overlapping holds of 300-700 notes (some hold always open).'
     ' Round 6: include_note_types as a plain set, NoteData input in the compact layout.'
     ' Round 7: two generators consumed in lock-step; one hold with 1300 notes under it.'
+    ' Round 8: a stream of 16424 (thorough 32808) notes; empty and one-sided include sets.'
 )
 EXHAUSTIVE_PART = "every stream on 2 columns x 3 rows (quick) / 2 x 4 rows and 3 columns x 3 rows (thorough) over {empty, tap, hold head, tail, mine} x all 30 option sets"
 ASSUMPTIONS = ["vmon/ref/grouping.py states the documented rules"]
